@@ -139,6 +139,7 @@ type Machine struct {
 
 	res     Result
 	globals *Scope
+	top     *Scope
 	nextID  int
 	retVal  Value
 	seq     int
@@ -166,6 +167,7 @@ func (m *Machine) Run(prog []*N) (res *Result) {
 		m.globals.Vars[b] = &BuiltinV{b}
 	}
 	top := m.newScope(m.globals)
+	m.top = top
 	defer func() {
 		if r := recover(); r != nil {
 			switch v := r.(type) {
@@ -212,14 +214,34 @@ func (m *Machine) declare(sc *Scope, name string, v Value) {
 		if !f.mentionsFree(name) {
 			continue
 		}
+		onChain, resolved := false, false
 		for p := f.Env; p != nil; p = p.Parent {
 			if p == sc {
-				m.unspec("declaration of a name after a closure reading it from an enclosing scope was created")
+				onChain = true
+				break
 			}
 			if s, ok := p.Seq[name]; ok && s < f.Seq {
 				break // the closure's name resolved here at creation; sc is not closer
 			}
 		}
+		if !onChain {
+			continue
+		}
+		for p := sc.Parent; p != nil; p = p.Parent {
+			if s, ok := p.Seq[name]; ok && s < f.Seq {
+				resolved = true
+			}
+			if _, builtin := p.Vars[name]; builtin && p == m.globals {
+				resolved = true
+			}
+		}
+		// a forward reference to a program-level name that had no binding at
+		// all when the closure was created (mutual recursion) is late-bound
+		// under both readings; everything else leaves the domain
+		if sc == m.top && !resolved {
+			continue
+		}
+		m.unspec("declaration of a name after a closure reading it from an enclosing scope was created")
 	}
 	sc.Vars[name] = v
 	if sc.Seq == nil {
